@@ -42,12 +42,9 @@ Module I18.
     { intros k Hk. destruct (zero_padded (itoa k)) eqn:E; [|reflexivity]. exfalso.
       destruct k as [|p|p]; cbn [itoa] in E; try discriminate.
       pose proof (atoi_itoa (Z.pos p) Hk) as Ha. cbn [itoa] in Ha.
-      destruct (n_to_dec (N.pos p)) as [|b [|c r]] eqn:En; try discriminate.
-      unfold zero_padded in E. destruct (N.eq_dec b 48) as [->|Hb]; [|rewrite (zp_not48 _ _ Hb) in E; discriminate].
-      (* a positive number whose decimal text starts with 0: its digits are produced by
-         n_to_dec_fuel, whose leading digit is n mod 10 of a non-zero quotient chain *)
-      clear E. revert Ha En. generalize (c :: r). intros l Ha En.
-      pose proof (n_to_dec_lead_nonzero (N.pos p) ltac:(discriminate)) as L. rewrite En in L. apply L. reflexivity. }
+      destruct (n_to_dec (N.pos p)) as [|b t] eqn:En; [discriminate|].
+      destruct (N.eq_dec b 48) as [->|Hb]; [|rewrite (zp_not48 _ _ Hb) in E; discriminate].
+      apply (n_to_dec_lead_nonzero (N.pos p) ltac:(discriminate) 48%N t En). reflexivity. }
     destruct (m <? n) eqn:E.
     - apply (fmtnum_plain (itoa m) m); [apply P; exact Hm|apply atoi_itoa; exact Hm|lia].
     - apply (fmtnum_plain (itoa n) n); [apply P; exact Hn|apply atoi_itoa; exact Hn|lia].
